@@ -187,7 +187,9 @@ sp_ztrsv(char *uplo, char *trans, char *diag, SuperMatrix *L,
 		    for (i = 0; i < nrow; ++i, ++iptr) {
 			irow = L_SUB(iptr);
 			z_sub(&x[irow], &x[irow], &work[i]); /* Scatter */
-			work[i] = comp_zero;
+			/* (comp_zero doubles as a scratch variable in the single-column
+			   branches above: reset explicitly) */
+			work[i].r = 0.0; work[i].i = 0.0;
 
 		    }
 	 	}
